@@ -125,6 +125,36 @@ def run(ctx):
             npairs += 1
             if all(h[0] == h[k + 1] for h in hs_all):
                 ctx.violation("property_fails", f"two distinct un-encoded states ({kind}) collide under all {len(SEEDS)} seeds", case, True)
+    # ---- (b') the same hasher, seed by seed, for the seeds a user is most likely to pass (0, small negative and positive numbers): a hash that ignores a
+    # coordinate (or a bit) under ONE seed is as wrong as one that does so under all of them.  Three pairs differing in the same coordinate are hashed;
+    # two or more collisions under one seed cannot be chance (2^-128)
+    for rep in range(ctx.budget(12, 100)):
+        n = rng.randint(2, 9)
+        seed = rng.choice([0, 0, -1, -2, -3, -(n - 1), 1, 2, -n, 5])
+        base = [rng.choice([0, 1, -1, 5, rng.randint(-1000, 1000)]) for _ in range(n)]
+        kindg = rng.choice(["vector", "matrix"])
+        if kindg == "vector":
+            g = CayleyGraph(CayleyGraphDef.create([list(range(1, n)) + [0]], central_state=[0] * n), device="cpu", bit_encoding_width=None, random_seed=seed)
+        else:
+            from cayleypy.cayley_graph_def import MatrixGenerator
+            n = rng.choice([4, 9])
+            k_ = int(n ** 0.5)
+            base = [rng.randrange(5) for _ in range(n)]
+            eye = [[1 if i == j else 0 for j in range(k_)] for i in range(k_)]
+            up = [row[:] for row in eye]; up[0][k_ - 1] = 1
+            g = CayleyGraph(CayleyGraphDef.for_matrix_group(generators=[MatrixGenerator.create(up, modulo=5)], central_state=eye), device="cpu", random_seed=seed)
+        for i in range(n):
+            vs = []
+            for delta in (1, 2, 3):
+                c = list(base); c[i] += delta; vs.append(c)
+            hs = [int(h) for h in g.hasher.make_hashes(torch.tensor([base] + vs, dtype=torch.int64)).tolist()]
+            ncoll = sum(1 for h in hs[1:] if h == hs[0])
+            npairs += 3
+            ctx.count("per_seed_coordinate_pairs", 3)
+            if ncoll >= 2:
+                ctx.violation("property_fails", f"un-encoded {kindg} states that differ only in coordinate {i} collide under random_seed={seed} ({ncoll} of 3 pairs): "
+                              "the hash ignores that coordinate", {"class": "dot_seed_coordinate", "kind": kindg, "n": n, "seed": seed, "coordinate": i, "base": base}, True)
+                break
     ctx.cov["search"]["adversarial_pairs"] = npairs
 
     # ---- (c) make_hashes correspondence (all three kinds), chunked paths, get_unique_states ----
@@ -151,8 +181,16 @@ def run(ctx):
         if rng.random() < 0.7:
             batch += [list(rng.choice(batch)) for _ in range(rng.randint(1, 4))]
         rng.shuffle(batch)
-        enc = graph.encode_states(torch.tensor(batch, dtype=torch.int64))
+        # the states arrive in the container a caller may use (lists, NumPy arrays and tensors of narrower integer types): same codes, same hashes
+        cont = G.pick_container(rng, [v for st_ in batch for v in st_], 0.5)
+        ctx.count("batch_container_" + cont)
+        enc = graph.encode_states(G.in_container(cont, batch))
         hs = [int(h) for h in graph.hasher.make_hashes(enc).tolist()]
+        if cont != "list":
+            hs64 = [int(h) for h in graph.hasher.make_hashes(graph.encode_states(torch.tensor(batch, dtype=torch.int64))).tolist()]
+            if hs64 != hs:
+                ctx.violation("property_fails", f"the same states hash differently when given as {cont} than as int64 (distinct states may merge, equal ones may split)",
+                              {"class": "container_hash", "container": cont, "graph": gd, "config": cfgd, "batch": batch}, True)
         # hashes must not depend on chunking or on the copy of the graph that computes them
         ginv = None
         try:
